@@ -141,6 +141,17 @@ class ExcV:
 
 
 @dataclass(frozen=True)
+class CtxGenV:
+    """The not yet entered generator of an @contextmanager function (function info, bound arguments)."""
+    fi: object
+    args: tuple
+    kwargs: tuple
+
+    def __repr__(self):
+        return f"CtxGen({self.fi.qualname})"
+
+
+@dataclass(frozen=True)
 class LambdaV:
     node: object
     frame_id: int
